@@ -61,7 +61,7 @@ fn run_real(src: &str) -> (String, Result<Result<String, String>, String>) {
         KotoSettings::default()
             .with_stdout(so.clone())
             .with_stderr(se.clone())
-            .with_execution_limit(std::time::Duration::from_secs(4)),
+            .with_execution_limit(std::time::Duration::from_secs(3)),
     );
     let r = kvh::catch(|| match koto.compile_and_run(src) {
         Ok(v) => Ok(value_text(&v)),
@@ -159,6 +159,16 @@ fn canon_real(stdout: &str, r: &Result<Result<String, String>, String>) -> Strin
 
 const FUEL: u32 = 20000;
 
+/// Finding ids whose shape is generated again (`--allow=F-C04-2,F-C04-3`): for use after a repair
+/// has been applied, before the entry is flipped to status=fixed. Default: none.
+static ALLOW: std::sync::OnceLock<Vec<String>> = std::sync::OnceLock::new();
+fn allowed(id: &str) -> bool {
+    ALLOW.get().is_some_and(|v| v.iter().any(|x| x == id))
+}
+fn default_opts() -> RenderOpts {
+    RenderOpts { direct_call_assign: allowed("F-C04-2") }
+}
+
 fn model_req(mode: &str, p: &Prog) -> String {
     format!("run {} {} {}", mode, FUEL, p.sexp())
 }
@@ -208,14 +218,18 @@ impl Ctx {
         if m.contains("<outside-envelope") || m.ends_with("oof") || m.contains("bad-request") {
             return false;
         }
-        let (v, _, real, _) = self.compare(p, &RenderOpts::default());
+        let (v, _, real, _) = self.compare(p, &default_opts());
         v == Verdict::Differ && !real.contains("not found")
     }
 
     fn shrink(&mut self, p: &Prog) -> Prog {
         let mut cur = p.clone();
         let mut budget = 400;
+        let t0 = std::time::Instant::now();
         loop {
+            if t0.elapsed().as_secs() > 20 {
+                return cur;
+            }
             let mut improved = false;
             for cand in cur.shrink_candidates() {
                 if budget == 0 {
@@ -239,7 +253,7 @@ impl Ctx {
         let feats = p.features();
         let nontrivial = feats.faults >= 1 && feats.tries >= 1;
         self.rep.case(&key, nontrivial);
-        let (v, src, real, model) = self.compare(p, &RenderOpts::default());
+        let (v, src, real, model) = self.compare(p, &default_opts());
         // distribution
         self.rep.bump(&format!("origin={}", origin));
         self.rep.bump(&format!("try_nesting={}", feats.try_depth.min(4)));
@@ -282,7 +296,7 @@ impl Ctx {
                 self.fails += 1;
                 if self.fails <= 5 {
                     let small = self.shrink(p);
-                    let (_, s_src, s_real, s_model) = self.compare(&small, &RenderOpts::default());
+                    let (_, s_src, s_real, s_model) = self.compare(&small, &default_opts());
                     self.rep.violation(
                         "D",
                         "C04:guide-semantics",
@@ -316,6 +330,13 @@ fn main() {
         }
         return;
     }
+    let allow: Vec<String> = args
+        .extra
+        .iter()
+        .filter_map(|x| x.strip_prefix("--allow="))
+        .flat_map(|x| x.split(',').map(|y| y.to_string()))
+        .collect();
+    let _ = ALLOW.set(allow);
     let mut rep = Report::new("C04", &args);
     rep.rule = "cases: programs of the C04 mini language (markers, locals, in-place lists, throw, runtime-error primitives, functions, native callbacks, generators, overloaded operators, try/typed catch/finally, return/break/continue) generated from the seed with planted fault points, plus corpus and finding witnesses; distinct = distinct program S-expressions; non-trivial = at least one planted fault point and at least one try".into();
     let open: Vec<String> =
@@ -340,6 +361,10 @@ fn main() {
         let v: serde_json::Value = serde_json::from_str(&std::fs::read_to_string(pth).expect("replay file")).unwrap();
         let sx = v["detail"]["program"].as_str().expect("detail.program");
         let p = Prog::parse(sx).expect("program sexp");
+        if v["detail"]["mech"].as_bool() == Some(true) {
+            cx.check_mech(&p, "replay");
+            std::process::exit(cx.rep.finish());
+        }
         let (verdict, src, real, model) = cx.compare(&p, &RenderOpts::default());
         println!("{}\n-- verdict {:?}\n-- impl : {}\n-- model: {}", src, verdict, real, model);
         cx.check(&p, "replay");
@@ -355,7 +380,9 @@ fn main() {
                 if pth.extension().is_some_and(|e| e == "sexp") {
                     let txt = std::fs::read_to_string(&pth).unwrap_or_default();
                     for line in txt.lines().filter(|l| !l.trim().is_empty() && !l.starts_with(';')) {
+                        let is_mech = pth.file_name().is_some_and(|n| n.to_string_lossy().starts_with("mech"));
                         match Prog::parse(line) {
+                            Some(p) if is_mech => cx.check_mech(&p, "corpus-mech"),
                             Some(p) => cx.check(&p, "corpus"),
                             None => cx.rep.note(format!("corpus line not parsed: {}", pth.display())),
                         }
@@ -380,6 +407,21 @@ fn main() {
         }
         made += 1;
         cx.check(&p, "generated");
+        if cx.fails > 20 {
+            break;
+        }
+    }
+    // ---- 2. (K2) mechanism model vs the real runtime
+    let n_mech = if args.thorough() { 20000 } else { 1500 };
+    let mut rng2 = Rng::new(args.seed ^ 0x5eed_c04);
+    for _ in 0..n_mech {
+        let mut r = rng2.fork();
+        let p = gen_mech_prog(&mut r);
+        if matches!(p.shape_violation(), Some(w) if !w.starts_with("F-C04-1")) {
+            *rejected.entry("mech-family:other-shape".to_string()).or_insert(0) += 1;
+            continue;
+        }
+        cx.check_mech(&p, "generated-mech");
         if cx.fails > 20 {
             break;
         }
@@ -442,7 +484,8 @@ fn replay_findings(cx: &mut Ctx) {
         }
         if status_known {
             if failing > 0 {
-                cx.rep.known(&id, &format!("{} ({} of {} witnesses still deviate from the guide)", what, failing, total));
+                let short: String = what.chars().take(150).collect();
+                cx.rep.known(&id, &format!("{}… ({} of {} witnesses still deviate from the guide)", short, failing, total));
             } else {
                 cx.rep.note(format!("{}: no witness deviates any more (entry can become status=fixed)", id));
             }
@@ -454,6 +497,177 @@ fn replay_findings(cx: &mut Ctx) {
                 json!({"program": detail[0].get("program").cloned().unwrap_or(json!(null)), "witnesses": detail,
                        "note": "a finding recorded as fixed deviates from the guide again"}),
             );
+        }
+    }
+}
+
+
+// ------------------------------------------------------------------------------------ K2: mechanism model
+
+/// Random program in the fragment the mechanism model compiles (markers, throw of literals,
+/// try/typed catch/finally, literal loops, break/continue, return, calls, `each` callbacks).
+/// Shapes of F-C04-1 ARE generated here (return anywhere, break/continue in catch blocks, errors
+/// escaping catch blocks of a try with finally): the mechanism model must predict what the real
+/// runtime does on them. Not generated: break/continue out of a try *body* (F-C04-5: the real
+/// runtime may then never terminate and the model is faithful only up to the stale catch block).
+struct MG<'a> {
+    rng: &'a mut Rng,
+    tag: u32,
+}
+
+impl<'a> MG<'a> {
+    fn t(&mut self) -> u32 {
+        self.tag += 1;
+        self.tag
+    }
+    fn lit(&mut self) -> E {
+        match self.rng.below(4) {
+            0 => E::Lit(Lit::Int(self.rng.range(0, 9))),
+            1 => E::Lit(Lit::Null),
+            _ => E::Lit(Lit::Str(self.rng.range(0, 3) as u32)),
+        }
+    }
+    /// `in_fn`: return allowed; `brk_ok`: break/continue allowed here
+    fn block(&mut self, depth: u32, avail: u32, in_fn: bool, brk_ok: bool) -> E {
+        let n = 1 + self.rng.below(3);
+        let mut v = vec![];
+        for _ in 0..n {
+            v.push(self.stmt(depth, avail, in_fn, brk_ok));
+        }
+        E::Seq(v)
+    }
+    fn stmt(&mut self, depth: u32, avail: u32, in_fn: bool, brk_ok: bool) -> E {
+        let w_nest = if depth > 0 { 4 } else { 0 };
+        let w_call = if avail > 0 { 3 } else { 0 };
+        let w_ret = if in_fn { 1 } else { 0 };
+        let w_brk = if brk_ok { 2 } else { 0 };
+        match self.rng.weighted(&[5, 2, w_nest, w_nest / 2, w_call, w_call / 2, w_ret, w_brk]) {
+            0 => E::Emit(self.t(), None),
+            1 => E::Throw(Box::new(self.lit())),
+            2 => {
+                let has_fin = self.rng.chance(1, 2);
+                let mut body = vec![E::Emit(self.t(), None)];
+                if let E::Seq(es) = self.block(depth - 1, avail, in_fn, false) {
+                    body.extend(es);
+                }
+                let n_typed = self.rng.weighted(&[3, 2, 1]);
+                let mut cs = vec![];
+                for i in 0..=n_typed {
+                    let ty = if i == n_typed { None } else { Some(*self.rng.pick(&[Ty::String, Ty::Number, Ty::Null])) };
+                    let mut cb = vec![E::Emit(1000 + self.t(), None)];
+                    if self.rng.chance(2, 3) {
+                        if let E::Seq(es) = self.block(depth - 1, avail, in_fn, brk_ok) {
+                            cb.extend(es);
+                        }
+                    }
+                    cs.push((ty, 1, E::Seq(cb)));
+                }
+                let fin = if has_fin {
+                    let mut fb = vec![E::Emit(2000 + self.t(), None)];
+                    if self.rng.chance(1, 3) {
+                        fb.push(self.stmt(0, avail, false, false));
+                    }
+                    Some(Box::new(E::Seq(fb)))
+                } else {
+                    None
+                };
+                E::Try(Box::new(E::Seq(body)), cs, fin)
+            }
+            3 => {
+                let n = 1 + self.rng.below(3);
+                let items = (0..n).map(|i| E::Lit(Lit::Int(i as i64))).collect();
+                let mut body = vec![E::Emit(self.t(), None)];
+                if let E::Seq(es) = self.block(depth - 1, avail, in_fn, true) {
+                    body.extend(es);
+                }
+                E::ForL(0, Box::new(E::MkList(items)), Box::new(E::Seq(body)))
+            }
+            4 => E::Call(self.rng.below(avail as usize) as u32, vec![E::Lit(Lit::Int(0))]),
+            5 => {
+                let n = 1 + self.rng.below(2);
+                let items = (0..n).map(|i| E::Lit(Lit::Int(i as i64))).collect();
+                E::Native(NatKind::Each, self.rng.below(avail as usize) as u32, Box::new(E::MkList(items)))
+            }
+            6 => E::Ret(Box::new(E::Lit(Lit::Int(1)))),
+            _ => {
+                if self.rng.chance(1, 2) {
+                    E::Brk
+                } else {
+                    E::Cont
+                }
+            }
+        }
+    }
+}
+
+fn gen_mech_prog(rng: &mut Rng) -> Prog {
+    let mut g = MG { rng, tag: 0 };
+    let ndefs = g.rng.below(4) as u32;
+    let mut defs = vec![];
+    for i in 0..ndefs {
+        let mut body = vec![E::Emit(g.t(), None)];
+        if let E::Seq(es) = g.block(2, i, true, false) {
+            body.extend(es);
+        }
+        body.push(E::Lit(Lit::Int(0)));
+        defs.push(Def { is_gen: false, nparams: 1, nlocals: 2, body: E::Seq(body), segs: vec![], tail: E::Seq(vec![]) });
+    }
+    let mut body = vec![E::Assign(0, Box::new(E::Lit(Lit::Int(0)))), E::Assign(1, Box::new(E::Lit(Lit::Null)))];
+    if let E::Seq(es) = g.block(3, ndefs, false, false) {
+        body.extend(es);
+    }
+    body.push(E::Emit(g.t(), None));
+    Prog { nglobals: 0, classes: vec![], defs, main_locals: 2, main: E::Seq(body) }
+}
+
+/// tags of the marker lines and the result class of a canonical run text
+fn tags_only(canon: &str) -> String {
+    let (ms, res) = canon.split_once(" || ").unwrap_or((canon, ""));
+    let tags: Vec<String> = ms
+        .split(" | ")
+        .filter(|m| !m.is_empty())
+        .map(|m| m.split(' ').next().unwrap_or("").to_string())
+        .collect();
+    let res = if res.starts_with("ok") { "ok".to_string() } else { res.to_string() };
+    format!("{} || {}", tags.join(" | "), res)
+}
+
+impl Ctx {
+    /// (K2) the mechanism model (`TryMech`) against the real runtime, on a program of its fragment
+    fn check_mech(&mut self, p: &Prog, origin: &str) {
+        let key = format!("mech {}", p.sexp());
+        let src = p.render(&RenderOpts::default());
+        let (so, r) = run_real(&src);
+        let real = tags_only(&canon_real(&so, &r));
+        let mech = self.drv.ask(&format!("mech 20000 {}", p.sexp()));
+        self.rep.case(&key, true);
+        self.rep.bump(&format!("origin={}", origin));
+        let in_f1 = matches!(p.shape_violation(), Some(w) if w.starts_with("F-C04-1"));
+        if in_f1 {
+            self.rep.bump("mech:program_in_F-C04-1_shape");
+        }
+        if mech == "unsupported" || mech.ends_with("oof") || mech == "bad-request" {
+            self.fails += 1;
+            self.rep.violation(
+                "K",
+                "K:C04:mech-generator",
+                json!({"program": p.sexp(), "source": src, "model": mech, "note": "harness defect: program outside the mechanism model's fragment"}),
+            );
+            return;
+        }
+        if in_f1 && self.rep.samples.len() < 8 && self.rep.evaluations % 53 == 1 {
+            self.rep.sample(json!({"kind": "mechanism-model", "source": src, "request": key, "impl": real, "model": mech}));
+        }
+        if real != mech {
+            self.fails += 1;
+            if self.fails <= 5 {
+                self.rep.violation(
+                    "K",
+                    "K:C04:Mech.exec",
+                    json!({"program": p.sexp(), "source": src, "impl": real, "model": mech, "mech": true,
+                           "note": "the mechanism model (Model/TryMech.lean: catch stacks, TryStart/TryEnd layout, unwinding) and the real runtime disagree; finally_once_mech_partial_* and the F-C04-1/F-C04-5 negation witnesses of Props/C04.lean no longer speak about this code"}),
+                );
+            }
         }
     }
 }
@@ -1612,6 +1826,13 @@ impl Prog {
     /// The documented shapes of the known findings (and the modelled envelope). A program with a
     /// shape violation is not generated; this is a generation filter, never a suppression rule.
     fn shape_violation(&self) -> Option<&'static str> {
+        match self.shape_violation_raw() {
+            Some(w) if allowed(w.split(':').next().unwrap_or("")) => None,
+            r => r,
+        }
+    }
+
+    fn shape_violation_raw(&self) -> Option<&'static str> {
         for (i, d) in self.defs.iter().enumerate() {
             let s = Shape { in_fn: !d.is_gen, ..Default::default() };
             for b in d.bodies() {
@@ -1697,6 +1918,19 @@ impl Prog {
     /// one-step simplifications (AST level)
     fn shrink_candidates(&self) -> Vec<Prog> {
         let mut out = vec![];
+        // drop the last definition when nothing refers to it
+        if let Some(last) = self.defs.len().checked_sub(1) {
+            let mut cs = vec![];
+            for b in self.all_bodies() {
+                calls_of(b, &mut cs);
+            }
+            let used_by_class = self.classes.iter().any(|c| c.add == Some(last as u32) || c.lt == Some(last as u32));
+            if !cs.iter().any(|c| *c as usize == last) && !used_by_class {
+                let mut p = self.clone();
+                p.defs.pop();
+                out.push(p);
+            }
+        }
         // main
         for m in shrink_e(&self.main) {
             let mut p = self.clone();
@@ -2098,6 +2332,10 @@ impl<'a> G<'a> {
             if self.rng.chance(1, 3) {
                 body.push(self.observe(fr));
             }
+            if !cx.no_escape && self.rng.chance(1, 7) {
+                // re-throw the caught value
+                body.push(E::Throw(Box::new(E::Var(var))));
+            }
             if value {
                 body.push(self.int_safe(fr));
             }
@@ -2117,7 +2355,7 @@ impl<'a> G<'a> {
         cb.depth = cx.depth.saturating_sub(1);
         cb.try_depth = cx.try_depth + 1;
         cb.in_loop_ok = false; // break/continue would leave the try body (F-C04-5)
-        cb.args_fault_ok = false; // F-C04-3
+        cb.args_fault_ok = allowed("F-C04-3"); // F-C04-3
         cb.no_escape = false;
         if has_fin {
             cb.ret_ok = false; // F-C04-1
@@ -2313,10 +2551,18 @@ impl<'a> G<'a> {
                 let t = self.emit_plain();
                 E::If(Box::new(c), Box::new(E::Seq(vec![t, x])), Box::new(E::Seq(vec![])))
             }
-            6 => {
-                let v = if self.rng.chance(1, 2) { fr.ia } else { fr.ib };
-                E::Assign(v, Box::new(self.int_expr(fr, cx, 2)))
-            }
+            6 => match self.rng.below(3) {
+                0 => {
+                    let n = 1 + self.rng.below(3);
+                    let items = (0..n).map(|_| self.int_expr(fr, cx, 1)).collect();
+                    E::Assign(fr.lst, Box::new(E::MkList(items)))
+                }
+                1 => E::Push(Box::new(E::Var(fr.lst)), Box::new(self.int_expr(fr, cx, 2))),
+                _ => {
+                    let v = if self.rng.chance(1, 2) { fr.ia } else { fr.ib };
+                    E::Assign(v, Box::new(self.int_expr(fr, cx, 2)))
+                }
+            },
             7 => match self.pick_def(cx, |i| i.role == Role::General) {
                 Some(f) => {
                     let c = self.call_general(f, fr, cx, 1);
@@ -2359,7 +2605,7 @@ impl<'a> G<'a> {
 }
 
 fn gen_prog(rng: &mut Rng) -> Prog {
-    let ndefs = rng.weighted(&[1, 2, 3, 3, 3, 2, 2]);
+    let ndefs = rng.weighted(&[1, 2, 3, 3, 3, 3, 2, 2]);
     let nglobals = rng.weighted(&[1, 3, 2]) as u32;
     let n_err_classes = rng.weighted(&[1, 2, 1]) as u32;
     let want_ops = rng.chance(1, 3);
@@ -2432,6 +2678,14 @@ fn gen_prog(rng: &mut Rng) -> Prog {
             let mut body = g.prologue(&fr);
             if let E::Seq(es) = g.block(&fr, cx, 1, 4, None) {
                 body.extend(es);
+            }
+            if g.rng.chance(1, 2) {
+                // chain to the most recent general function (call depth)
+                if let Some(prev) = (0..i).rev().find(|j| g.infos[*j as usize].role == Role::General) {
+                    let c = g.call_general(prev, &fr, cx, 0);
+                    let pos = 6 + g.rng.below(body.len() - 5);
+                    body.insert(pos.min(body.len()), E::Assign(fr.ib, Box::new(c)));
+                }
             }
             let tail = match role {
                 Role::Pred => E::Bin(Op::Lt, Box::new(E::Var(0)), Box::new(g.small_int())),
